@@ -18,6 +18,7 @@ CONSTANTS
     Amts, SendDenoms, VestEnds,                 \* bank alphabet
     GovAmts,                                    \* amounts of governance community-pool spends to the burn address ({} = none)
     Fees,                                       \* fee choices, e.g. {0,1}
+    Tips,                                       \* subset of Accts \cup {"none"}: the account named in the envelope's tip field
     Fees2,                                      \* amounts of the SECOND denomination added to the fee, e.g. {0} or {0, 3}
     Kinds,                                      \* enabled message types
     SignerSets,                                 \* "exact" | "all": which signer sets are tried
@@ -229,7 +230,9 @@ SignerChoices(ms, ex) ==
 
 ExecChoices(ms) == IF ExecOn /\ Len(ms) = 1 /\ ms[1].type \in CustomTypes THEN {"none"} \cup Accts ELSE {"none"}
 
-Txs == UNION { UNION { {[msgs |-> ms, signers |-> sg, fee |-> f, exec |-> ex, fee2 |-> f2] : sg \in SignerChoices(ms, ex), f \in Fees, f2 \in Fees2}
+\* tip: the optional AuthInfo.tip of the transaction envelope names an account ("none" = absent) and an amount; this chain has no tip handling, so
+\* the field is inert: whoever is named there neither pays nor signs
+Txs == UNION { UNION { {[msgs |-> ms, signers |-> sg, fee |-> f, exec |-> ex, fee2 |-> f2, tip |-> tp] : sg \in SignerChoices(ms, ex), f \in Fees, f2 \in Fees2, tp \in Tips}
                        : ex \in ExecChoices(ms) } : ms \in MsgSeqs }
 
 MCDeliver(tx) ==
